@@ -75,6 +75,9 @@ class LeanOut:
             raise Unsupported("fp literal")
         if isinstance(o, int):
             return f"i:{o & M64:x}"
+        mb = re.match(r"^(r?blk\d?):(\d+)\((\w+)\)$", o)
+        if mb:      # block argument of a call, written as text
+            return f"m:{mb.group(1)}/{mb.group(2)}:0:{mb.group(3)}:-:1"
         return f"r:{o}"
 
     def insn(self, ins, protos):
@@ -208,3 +211,423 @@ def parse_lean_lower(text):
         elif cur is not None and line.strip():
             funcs[cur].append(line.strip())
     return {k: canon_labels(v) for k, v in funcs.items()}
+
+
+# ------------------------------------------------------------------ programs aimed at simplification + inlining
+class Prog2:
+    """a main module plus an optional second module (printed first) whose functions reuse label names"""
+
+    def __init__(self, name):
+        self.name = name
+        self.main = Prog(name)
+        self.aux = None
+        self.stats = self.main.stats
+
+    @property
+    def funcs(self):
+        return (self.aux.funcs if self.aux else []) + self.main.funcs
+
+    @property
+    def protos(self):
+        return set(self.main.protos) | (set(self.aux.protos) if self.aux else set())
+
+    def text(self):
+        return (self.aux.text() if self.aux else "") + self.main.text()
+
+
+OPS_RR = ["add", "sub", "mul", "xor", "and", "or"]
+THRESHOLDS = [49, 50, 51, 199, 200, 201]
+
+
+class C04Gen:
+    def __init__(self, rng, name, opts=None):
+        self.r = rng
+        self.name = name
+        self.P = Prog2(name)
+        self.M = self.P.main
+        self.nh = 0
+        self.o = dict(kf_shapes=False, nmids=4, aux=True)
+        self.o.update(opts or {})
+        self.sizes = {}      # helper name -> intended simplified size (threshold helpers)
+        self.feat = self.M.stats
+
+    def stat(self, k, n=1):
+        self.feat[k] = self.feat.get(k, 0) + n
+
+    def fname(self, hint):
+        self.nh += 1
+        return f"{self.name}_{hint}{self.nh}"
+
+    def add(self, mod, fn, header, locs, ins):
+        mod.funcs.append((fn, header, [f"i64:{x}" for x in locs], ins))
+
+    # ---------------------------------------------------------------- helpers
+    def h_sized(self, n):
+        """exactly n instructions after simplification (register-only operands)"""
+        r = self.r
+        fn = self.fname(f"sz{n}_")
+        ins = [("mov", "r", "a"), ("mov", "s", "b")]
+        while len(ins) < n - 1:
+            d = r.choice(["r", "s"])
+            ins.append((r.choice(OPS_RR), d, r.choice(["r", "s", "a"]), r.choice(["r", "s", "b"])))
+        ins.append(("ret", "r"))
+        self.add(self.M, fn, "i64, i64:a, i64:b", ["r", "s"], ins)
+        self.M.protos.add("p2: proto i64, i64:a, i64:b")
+        self.sizes[fn] = n
+        self.stat(f"sized_{n}")
+        return fn, "p2"
+
+    def h_chain(self, depth):
+        r = self.r
+        prev = None
+        for d in range(depth + 1):
+            fn = self.fname(f"ch{d}_")
+            ins = [("add", "t", "a", r.choice(CONSTS)), ("xor", "t", "t", "b")]
+            if prev is None:
+                ins += [("mul", "u", "t", 3), ("add", "u", "u", 7)]
+            else:
+                ins += [(r.choice(["call", "inline"]), "p2", prev, "u", "t", "b")]
+            ins += [("xor", "r", "u", "a"), ("ret", "r")]
+            self.add(self.M, fn, "i64, i64:a, i64:b", ["t", "u", "r"], ins)
+            prev = fn
+        self.M.protos.add("p2: proto i64, i64:a, i64:b")
+        self.stat("chain")
+        return prev, "p2"
+
+    def h_rec(self):
+        r = self.r
+        fn = self.fname("rec")
+        lb = fn + "_base"
+        kind = r.choice(["call", "inline"])
+        ins = [("ble", lb, "a", 0), ("sub", "n1", "a", 1), ("mul", "b", "b", 3), ("add", "b", "b", "a"),
+               (kind, "p2", fn, "r", "n1", "b"), ("ret", "r"), ("label", lb), ("ret", "b")]
+        self.add(self.M, fn, "i64, i64:a, i64:b", ["n1", "r"], ins)
+        self.M.protos.add("p2: proto i64, i64:a, i64:b")
+        self.stat("self_recursion")
+        return fn, "p2"
+
+    def h_mutual(self):
+        r = self.r
+        fa, fb = self.fname("mua"), self.fname("mub")
+        la, lb = fa + "_z", fb + "_z"
+        ka, kb = r.choice(["call", "inline"]), r.choice(["call", "inline"])
+        self.add(self.M, fa, "i64, i64:a, i64:b", ["n1", "x", "r"],
+                 [("ble", la, "a", 0), ("sub", "n1", "a", 1), ("mul", "x", "b", 5), ("add", "x", "x", 1),
+                  (ka, "p2", fb, "r", "n1", "x"), ("ret", "r"), ("label", la), ("ret", "b")])
+        self.add(self.M, fb, "i64, i64:a, i64:b", ["n1", "x", "r"],
+                 [("ble", lb, "a", 0), ("sub", "n1", "a", 1), ("add", "x", "b", "a"),
+                  (kb, "p2", fa, "r", "n1", "x"), ("ret", "r"), ("label", lb), ("xor", "r", "b", 0x55), ("ret", "r")])
+        self.M.protos.add("p2: proto i64, i64:a, i64:b")
+        self.stat("mutual_recursion")
+        return fa, "p2"
+
+    def h_alloca_top(self):
+        """constant alloca(s) at the top of the callee, used"""
+        r = self.r
+        fn = self.fname("at")
+        sz = r.choice([8, 16, 24, 40, 100, 3])
+        ins = [("alloca", "p", sz)]
+        locs = ["p", "r", "q"]
+        two = r.chance(1, 2)
+        if two:
+            ins.append(("alloca", "q", r.choice([8, 16, 1, 17])))
+            ins += [("mov", ("mem", "u8", 0, "q", None, 1), "b")]
+        if sz >= 8:
+            ins += [("mov", ("mem", "i64", 0, "p", None, 1), "a")]
+            if sz >= 16:
+                ins += [("mov", ("mem", "i32", 8, "p", None, 1), "b"), ("mov", ("mem", "u16", 12, "p", None, 1), 77),
+                        ("add", "r", ("mem", "i64", 0, "p", None, 1), ("mem", "i32", 8, "p", None, 1)),
+                        ("add", "r", "r", ("mem", "u16", 12, "p", None, 1))]
+            else:
+                ins += [("mul", "r", ("mem", "i64", 0, "p", None, 1), 3)]
+        else:
+            ins += [("mov", ("mem", "u8", 2, "p", None, 1), "a"), ("mov", "r", ("mem", "u8", 2, "p", None, 1))]
+        if two:
+            ins += [("add", "r", "r", ("mem", "u8", 0, "q", None, 1))]
+        ins += [("ret", "r")]
+        self.add(self.M, fn, "i64, i64:a, i64:b", locs, ins)
+        self.M.protos.add("p2: proto i64, i64:a, i64:b")
+        self.stat("callee_top_alloca")
+        return fn, "p2"
+
+    def h_alloca_var(self):
+        """variable-size alloca: inlined between bstart/bend"""
+        fn = self.fname("av")
+        ins = [("and", "n", "a", 56), ("add", "n", "n", 8), ("alloca", "p", "n"),
+               ("mov", ("mem", "i64", 0, "p", None, 1), "b"), ("sub", "n", "n", 8),
+               ("mov", ("mem", "i64", 0, "p", "n", 1), "a"),
+               ("add", "r", ("mem", "i64", 0, "p", None, 1), ("mem", "i64", 0, "p", "n", 1)), ("ret", "r")]
+        self.add(self.M, fn, "i64, i64:a, i64:b", ["n", "p", "r"], ins)
+        self.M.protos.add("p2: proto i64, i64:a, i64:b")
+        self.stat("callee_var_alloca")
+        return fn, "p2"
+
+    def h_alloca_loop(self):
+        """constant alloca after a label, executed in a loop (non-top alloca)"""
+        fn = self.fname("al")
+        ll = fn + "_L"
+        top = self.r.chance(1, 2)
+        ins = ([("alloca", "q", 16), ("mov", ("mem", "i64", 8, "q", None, 1), "b")] if top else []) + \
+              [("mov", "i", 0), ("mov", "r", 0), ("label", ll), ("alloca", "p", 16),
+               ("mov", ("mem", "i64", 0, "p", None, 1), "i"), ("mov", ("mem", "i64", 8, "p", None, 1), "a"),
+               ("add", "r", "r", ("mem", "i64", 0, "p", None, 1)), ("xor", "r", "r", ("mem", "i64", 8, "p", None, 1)),
+               ("add", "i", "i", 1), ("blt", ll, "i", 3)] + \
+              ([("add", "r", "r", ("mem", "i64", 8, "q", None, 1))] if top else []) + [("ret", "r")]
+        self.add(self.M, fn, "i64, i64:a, i64:b", ["i", "p", "q", "r"], ins)
+        self.M.protos.add("p2: proto i64, i64:a, i64:b")
+        self.stat("callee_alloca_in_loop")
+        return fn, "p2"
+
+    def h_blk(self):
+        """block argument passed by value: the callee changes its copy"""
+        r = self.r
+        fn = self.fname("bk")
+        bt = r.choice(["blk", "blk", "blk1"])
+        sz = r.choice([16, 16, 8, 24, 32]) if bt == "blk" else r.choice([8, 16])   # blk1 = in integer registers: <= 16 bytes
+        pn = f"pb{bt}{sz}"
+        ins = [("add", ("mem", "i64", 0, "q", None, 1), ("mem", "i64", 0, "q", None, 1), "a"),
+               ("mov", "r", ("mem", "i64", 0, "q", None, 1))]
+        if sz >= 16:
+            ins += [("xor", "r", "r", ("mem", "i64", 8, "q", None, 1)), ("mov", ("mem", "i32", 12, "q", None, 1), 5)]
+        ins += [("ret", "r")]
+        self.add(self.M, fn, f"i64, {bt}:{sz}(q), i64:a", ["r"], ins)
+        self.M.protos.add(f"{pn}: proto i64, {bt}:{sz}(q), i64:a")
+        self.stat("blk_arg")
+        return fn, pn, bt, sz
+
+    def h_rblk(self):
+        fn = self.fname("rb")
+        self.add(self.M, fn, "i64, rblk:16(q), i64:a", ["r"],
+                 [("mov", ("mem", "i64", 0, "q", None, 1), "a"), ("mul", "r", "a", 7),
+                  ("mov", ("mem", "i64", 8, "q", None, 1), "r"), ("ret", "r")])
+        self.M.protos.add("prb16: proto i64, rblk:16(q), i64:a")
+        self.stat("rblk_arg")
+        return fn, "prb16"
+
+    def h_multi(self):
+        """several results of narrow types, narrow parameters, several returns (every other `ret`
+        uses registers disjoint from the last one's, or the kf shape when asked for)"""
+        r = self.r
+        fn = self.fname("mr")
+        nres = 2      # x86-64 returns at most two integer values
+        res = [r.choice(NARROW + ["i64"]) for _ in range(nres)]
+        pts = [r.choice(NARROW + ["i64"]), r.choice(NARROW + ["i64"])]
+        pn = "pm_" + "_".join(res + pts)
+        lab = [fn + f"_L{j}" for j in range(3)]
+        ins = [("add", "u", "a", "b"), ("xor", "v", "a", 0x1234567), ("mul", "w", "b", "a"),
+               ("mov", "x", "a"), ("mov", "y", "b"), ("sub", "z", "a", "b")]
+        nrets = 1 + r.below(3)
+        lastregs = ["u", "v", "w"][:nres]
+        others = ["x", "y", "z"]
+        for j in range(nrets - 1):
+            ins.append((r.choice(["bt", "bf"]), lab[j], r.choice(["a", "b"])))
+            if self.o["kf_shapes"]:
+                ops = [r.choice(lastregs + others) for _ in range(nres)]
+            else:
+                ops = [r.choice(others + [r.choice(CONSTS)]) for _ in range(nres)]
+            ins.append(("ret",) + tuple(ops))
+            ins.append(("label", lab[j]))
+        ins.append(("ret",) + tuple(lastregs))
+        self.add(self.M, fn, ", ".join(res + [f"{pts[0]}:a", f"{pts[1]}:b"]), ["u", "v", "w", "x", "y", "z"], ins)
+        self.M.protos.add(f"{pn}: proto " + ", ".join(res + [f"{pts[0]}:a", f"{pts[1]}:b"]))
+        self.stat("multi_result")
+        if nrets > 1:
+            self.stat("multi_return")
+        if any(t in NARROW for t in res):
+            self.stat("narrow_result")
+        if any(t in NARROW for t in pts):
+            self.stat("narrow_param")
+        return fn, pn, nres
+
+    def h_ext(self):
+        fn = self.fname("ex")
+        r = self.r
+        ins = [("call", "pe1", "ext1", "r", "a")]
+        if r.chance(1, 2):
+            ins += [("call", "pev", "extv", "b")]
+            self.M.protos.add("pev: proto i64:a"); self.M.imports.add("extv")
+        ins += [("call", "pe2", "ext2", "s", "r", "b"), ("xor", "r", "r", "s"), ("ret", "r")]
+        self.M.protos.add("pe1: proto i64, i64:a"); self.M.imports.add("ext1")
+        self.M.protos.add("pe2: proto i64, i64:a, i64:b"); self.M.imports.add("ext2")
+        self.add(self.M, fn, "i64, i64:a, i64:b", ["r", "s"], ins)
+        self.M.protos.add("p2: proto i64, i64:a, i64:b")
+        self.stat("callee_calls_external")
+        return fn, "p2"
+
+    def h_random(self):
+        """a lib/mirgen.py helper (random CFG, integer code, optional alloca and external calls)"""
+        hn = self.fname("rh")
+        ho = dict(mem=False, alloca=self.r.chance(1, 3), nblocks=3, ninsn=5, nint=5, ndbl=1, fuel=12,
+                  calls=self.r.chance(1, 2), jmpi=False, fp=False)
+        pro = Prog("tmp")
+        mirgen.FuncGen(self.r, pro, hn, entry=False, helpers=[], opts=ho).build()
+        f = pro.funcs[0]
+        self.M.funcs.append((f[0], f[1], f[2], sanitize(f[3])))
+        self.M.protos |= pro.protos
+        self.M.imports |= pro.imports
+        self.M.protos.add("ph: proto i64, i64:a, i64:b, d:x")
+        self.stat("random_helper")
+        return hn, "ph"
+
+    def h_aux(self):
+        """helper in a second module using the label names LL0/LL1 (also used in the main module)"""
+        if self.P.aux is None:
+            self.P.aux = Prog(self.name + "x")
+        fn = f"{self.name}x_g{len(self.P.aux.funcs)}"
+        ins = [("mov", "r", "a"), ("bgt", "LL0", "a", "b"), ("add", "r", "r", "b"), ("jmp", "LL1"),
+               ("label", "LL0"), ("sub", "r", "r", "b"), ("label", "LL1"), ("mul", "r", "r", 3), ("ret", "r")]
+        if self.P.aux.funcs:
+            sfx = f"_{len(self.P.aux.funcs)}"
+            ins = [(i[0], i[1] + sfx) + tuple(i[2:]) if i[0] in ("bgt", "jmp", "label") else i for i in ins]
+        self.add(self.P.aux, fn, "i64, i64:a, i64:b", ["r"], ins)
+        self.M.imports.add(fn)
+        self.M.protos.add("p2: proto i64, i64:a, i64:b")
+        self.stat("cross_module_callee")
+        return fn, "p2"
+
+    # ---------------------------------------------------------------- mid-level callers (small, so that the
+    # default growth rule lets them inline) : i64 mid (p buf, i64 a, i64 b)
+    def mid(self):
+        r = self.r
+        fn = self.fname("mid")
+        ins = []
+        locs = ["acc", "r0", "r1", "r2", "t0", "t1", "cnt", "tal", "tal2", "va"]
+        regs = ["a", "b", "r0", "r1"]
+        own = r.below(3)      # 0: none, 1: top alloca, 2: two adjacent top allocas
+        ins += [("mov", "acc", 0), ("mov", "r0", "a"), ("xor", "r1", "b", r.choice(CONSTS)), ("mov", "r2", 1)]
+        pre_call = None
+        if self.o["kf_shapes"] and own and r.chance(1, 2):
+            pre_call = True     # known finding: a call in front of the caller's top alloca
+            hn, pn = self.h_alloca_top()
+            ins += [("inline", pn, hn, "r2", "a", "b")]
+        if own:
+            ins += [("alloca", "tal", 48)]
+            if own == 2:
+                ins += [("alloca", "tal2", r.choice([8, 24, 3]))]
+                ins += [("mov", ("mem", "u8", 1, "tal2", None, 1), "b")]
+            for k in range(0, 48, 8):
+                ins += [("mov", ("mem", "i64", k, "tal", None, 1), r.choice(["a", "b", k]))]
+            self.stat("caller_top_alloca")
+        nsc = 1 + r.below(3)
+        uses_ll = False
+        for s in range(nsc):
+            k = r.below(14)
+            loop = r.chance(1, 4)
+            lab = f"{fn}_lp{s}"
+            if loop:
+                ins += [("mov", "cnt", 2 + r.below(2)), ("label", lab)]
+                self.stat("call_in_loop")
+            a1, a2 = r.choice(regs), r.choice(regs + [r.choice(CONSTS)])
+            kind = r.choice(["call", "inline"])
+            self.stat("site_" + kind)
+            if k == 0:
+                hn, pn = self.h_sized(r.choice(THRESHOLDS))
+                ins += [(kind, pn, hn, "t0", a1, a2)]
+            elif k == 1:
+                hn, pn = self.h_chain(1 + r.below(3))
+                ins += [(kind, pn, hn, "t0", a1, a2)]
+            elif k == 2:
+                hn, pn = self.h_rec() if r.chance(1, 2) else self.h_mutual()
+                ins += [("and", "t1", a1, 7), (kind, pn, hn, "t0", "t1", a2)]
+            elif k in (3, 4):
+                hn, pn = self.h_alloca_top()
+                ins += [(kind, pn, hn, "t0", a1, a2)]
+                if r.chance(1, 2):     # a second callee with a top alloca: slots are shared / stacked
+                    hn2, pn2 = self.h_alloca_top()
+                    ins += [(r.choice(["call", "inline"]), pn2, hn2, "t1", "t0", a1), ("add", "t0", "t0", "t1")]
+            elif k == 5:
+                hn, pn = self.h_alloca_var()
+                ins += [(kind, pn, hn, "t0", a1, a2)]
+            elif k == 6:
+                hn, pn = self.h_alloca_loop()
+                ins += [(kind, pn, hn, "t0", a1, a2)]
+            elif k == 7:
+                hn, pn, bt, sz = self.h_blk()
+                off = 8 * r.below(40)
+                ins += [("add", "t1", "buf", off), (kind, pn, hn, "t0", f"{bt}:{sz}(t1)", a1)]
+            elif k == 8:
+                hn, pn = self.h_rblk()
+                off = 8 * r.below(50)
+                ins += [("add", "t1", "buf", off), (kind, pn, hn, "t0", "rblk:16(t1)", a1),
+                        ("add", "t0", "t0", ("mem", "i64", 8, "t1", None, 1))]
+            elif k == 9:
+                hn, pn, nres = self.h_multi()
+                outs = ["t0", "t1", "r2"][:nres]
+                if r.chance(1, 3):     # a result stored directly to memory
+                    outs[-1] = ("mem", r.choice(["i64", "i32", "u8"]), 8 * r.below(50), "buf", None, 1)
+                ins += [(kind, pn, hn) + tuple(outs) + (a1, a2)]
+                if nres >= 2 and isinstance(outs[1], str):
+                    ins += [("add", "t0", "t0", "t1")]
+            elif k == 10:
+                hn, pn = self.h_ext()
+                ins += [(kind, pn, hn, "t0", a1, a2)]
+            elif k == 11:
+                hn, pn = self.h_random()
+                ins += [(kind, pn, hn, "t0", a1, a2, ("d", 0.0))]
+            elif k == 12 and self.o["aux"]:
+                hn, pn = self.h_aux()
+                ins += [(kind, pn, hn, "t0", a1, a2)]
+                if not uses_ll:     # the same label names inside this module
+                    uses_ll = "LL0" not in self.used_ll
+                    if uses_ll:
+                        self.used_ll.add("LL0")
+                        ins += [("bgt", "LL0", "t0", 5), ("add", "t0", "t0", 1), ("jmp", "LL1"), ("label", "LL0"),
+                                ("sub", "t0", "t0", 2), ("label", "LL1")]
+                        self.stat("label_names_reused")
+            else:
+                hn, pn = self.h_sized(r.choice([3, 10, 30] + THRESHOLDS))
+                ins += [(kind, pn, hn, "t0", a1, a2)]
+            ins += [("xor", "acc", "acc", "t0"), ("mul", "acc", "acc", 31), ("add", "r0", "r0", "t0")]
+            if loop:
+                ins += [("sub", "cnt", "cnt", 1), ("bgt", lab, "cnt", 0)]
+            if r.chance(1, 3):
+                ins += [("mov", ("mem", "i64", 8 * r.below(56), "buf", None, 1), "acc")]
+        if r.chance(1, 4):      # variable alloca in the caller itself
+            ins += [("and", "t1", "a", 24), ("add", "t1", "t1", 8), ("alloca", "va", "t1"),
+                    ("mov", ("mem", "i64", 0, "va", None, 1), "acc"), ("add", "acc", "acc", ("mem", "i64", 0, "va", None, 1))]
+            self.stat("caller_var_alloca")
+        if own:
+            for k in range(0, 48, 8):
+                ins += [("xor", "acc", "acc", ("mem", "i64", k, "tal", None, 1)), ("mul", "acc", "acc", 7)]
+            if own == 2:
+                ins += [("add", "acc", "acc", ("mem", "u8", 1, "tal2", None, 1))]
+        ins += [("add", "acc", "acc", "r2"), ("ret", "acc")]
+        self.add(self.M, fn, "i64, p:buf, i64:a, i64:b", locs, ins)
+        self.M.protos.add("pmid: proto i64, p:buf, i64:a, i64:b")
+        return fn
+
+    def build(self):
+        r = self.r
+        self.used_ll = set()
+        mids = [self.mid() for _ in range(1 + r.below(self.o["nmids"]))]
+        en = f"{self.name}_e0"
+        ins = [("mov", "acc", 0), ("mov", "i0", "a0"), ("xor", "i1", "a1", "a2"), ("add", "i2", "a3", 1)]
+        for m in mids:
+            ins += [("call", "pmid", m, "t0", "buf", r.choice(["i0", "i1", "i2", "a0"]), r.choice(["i0", "i1", "i2", "a3", r.choice(CONSTS)])),
+                    ("xor", "acc", "acc", "t0"), ("mul", "acc", "acc", 1000003), ("add", "i0", "i0", "t0")]
+        ins += [("ret", "acc")]
+        # the entry goes last: callees before callers exercises "callee already processed by process_inlines";
+        # mids were appended after their helpers, shuffle the order of all functions
+        self.add(self.M, en, "i64, p:buf, i64:a0, i64:a1, i64:a2, i64:a3, d:x0, d:x1", ["acc", "i0", "i1", "i2", "t0"], ins)
+        fs = self.M.funcs
+        for i in range(len(fs) - 1, 0, -1):
+            j = r.below(i + 1)
+            fs[i], fs[j] = fs[j], fs[i]
+        # forward declarations are needed for functions referenced before their definition
+        return self.P, [en]
+
+
+def sanitize(insns):
+    """keep lib/mirgen.py programs off the known finding C04:mulo-by-1: `mulo[s] d, x, 1` followed by a
+    branch on overflow"""
+    out = []
+    for x in insns:
+        if x[0] in ("mulo", "mulos") and len(x) == 4 and x[3] == 1:
+            x = (x[0], x[1], x[2], 3)
+        out.append(x)
+    return out
+
+
+def gen_c04_program(rng, name, opts=None):
+    g = C04Gen(rng, name, opts)
+    return g.build()
